@@ -116,6 +116,9 @@ pub fn fixed_cases() -> Vec<Case> {
     FIXED.iter().map(|s| parse_case_body(s).unwrap_or_else(|| panic!("bad fixed case {s}"))).collect()
 }
 
+/// Variable names that `constants.rs` also accepts as constant literals.
+pub const LITERAL_NAMES: &[&str] = &["c0", "beef", "b0", "0", "1", "ff", "00", "0xab", "cafe01"];
+
 #[derive(Clone, Copy, Debug, PartialEq)]
 enum Ty {
     Bool,
@@ -133,6 +136,8 @@ struct G<'a> {
     wit: Vec<(String, IrValue)>,
     next: usize,
     wide: bool,
+    /// literal-like names still to be handed out by `fresh`
+    lit: Vec<&'static str>,
 }
 
 fn q_big() -> BigUint {
@@ -144,6 +149,12 @@ fn r_big() -> BigUint {
 
 impl<'a> G<'a> {
     fn fresh(&mut self) -> String {
+        // names that are also well-formed constant literals (`constants.rs: TryFrom<&str>`:
+        // "0"/"1" Booleans, even-length hex strings byte arrays): both interpreters must look
+        // a name up in memory BEFORE trying to parse it as a constant (seeded change C18-3)
+        if !self.lit.is_empty() && self.rng.gen_bool(0.5) {
+            return self.lit.pop().unwrap().to_string();
+        }
         self.next += 1;
         format!("v{}", self.next)
     }
@@ -523,7 +534,11 @@ impl<'a> G<'a> {
 
 /// A random straight-line program of roughly `len` instructions with its witness.
 pub fn random_case(rng: &mut ChaCha8Rng, len: usize, wide: bool) -> Case {
-    let mut g = G { rng, vars: vec![], prog: vec![], wit: vec![], next: 0, wide };
+    // a fixed share of the programs (lengths 1, 5, 9, ... = 7 of every 25) binds variables
+    // whose names are valid literals, on the Load side and on the output side of operations
+    let mut lit: Vec<&'static str> = if len % 4 == 1 { LITERAL_NAMES.to_vec() } else { vec![] };
+    lit.shuffle(rng);
+    let mut g = G { rng, vars: vec![], prog: vec![], wit: vec![], next: 0, wide, lit };
     while g.prog.len() < len {
         g.step();
     }
@@ -616,7 +631,153 @@ pub fn mutate(rng: &mut ChaCha8Rng, c: &Case) -> (Case, &'static str) {
     (c, tag)
 }
 
+/// Little-endian bytes of `x`, exactly `n` of them (`x < 256^n`).
+fn le_bytes(x: &BigUint, n: usize) -> Vec<u8> {
+    let mut b = x.to_bytes_le();
+    assert!(b.len() <= n || b.iter().skip(n).all(|z| *z == 0));
+    b.resize(n, 0);
+    b
+}
+
+/// Dishonest-witness candidates for every comparison-like operation (AssertEqual,
+/// AssertNotEqual, IsEqual + Publish) on every comparable type: pairs of DIFFERENT values that a
+/// comparison through a lossy encoding would identify - byte strings / integers congruent modulo
+/// the native modulus p, modulo 2^248, 2^256, the BigUint limb base 2^96, first/last byte only -
+/// next to equal pairs. `run_case` requires: the circuit is satisfied with the off-circuit public
+/// inputs, is NOT satisfied with the published Boolean flipped, and is unsatisfiable when the
+/// off-circuit assertion fails.
+pub fn wrap_cases(rng: &mut ChaCha8Rng, rounds: usize) -> Vec<Case> {
+    let p = q_big();
+    let one = BigUint::one();
+    let mut pairs_bytes: Vec<(usize, BigUint, BigUint)> = vec![];
+    for &n in &[1usize, 2, 31, 32, 33, 64] {
+        let cap = BigUint::one() << (8 * n);
+        let mut cands: Vec<(BigUint, BigUint)> = vec![
+            (BigUint::zero(), BigUint::zero()),
+            (&cap - &one, &cap - &one),
+            (BigUint::zero(), BigUint::one()),
+            (BigUint::zero(), BigUint::one() << (8 * n - 1)),
+            (BigUint::zero(), BigUint::one() << (8 * (n - 1))),
+            (&cap - &one, &cap - 2u32),
+        ];
+        if n >= 2 {
+            // same first byte, same last byte, same low half
+            cands.push((BigUint::from(0x0100u32), BigUint::zero()));
+            cands.push((BigUint::one() << (8 * (n / 2)), BigUint::zero()));
+        }
+        if n >= 32 {
+            cands.push((BigUint::zero(), p.clone()));
+            cands.push((&p - &one, (&p * 2u32 - &one) % &cap));
+            cands.push((BigUint::one(), &p + &one));
+            cands.push((BigUint::zero(), BigUint::one() << 248));
+            cands.push((BigUint::zero(), BigUint::one() << 255));
+            for _ in 0..rounds {
+                let room = (&cap - &one) / &p; // multiples of p that fit
+                let x = rng.gen_biguint_below(&p);
+                let k = if room <= one.clone() { one.clone() } else { rng.gen_biguint_below(&room) + &one };
+                let y = &x + &p * &k;
+                if y < cap {
+                    cands.push((x, y));
+                }
+            }
+        }
+        if n >= 33 {
+            cands.push((BigUint::zero(), BigUint::one() << 256));
+            cands.push((BigUint::zero(), &p << 8));
+        }
+        if n == 31 {
+            cands.push((BigUint::zero(), (&p % (BigUint::one() << 248))));
+        }
+        for _ in 0..rounds {
+            let x = rng.gen_biguint(8 * n as u64);
+            let mut y = x.clone();
+            y.set_bit(rng.gen_range(0..8 * n as u64), !x.bit(0) || true);
+            let j = rng.gen_range(0..8 * n as u64);
+            y.set_bit(j, !x.bit(j));
+            cands.push((x.clone(), y));
+            cands.push((x.clone(), x));
+        }
+        for (a, b) in cands {
+            pairs_bytes.push((n, a, b));
+        }
+    }
+    let mut out: Vec<String> = vec![];
+    let ops = |t: &str, a: &str, b: &str, out: &mut Vec<String>| {
+        out.push(format!("load.{t};;v,w is_eq;v,w;b publish;b; | v={a} w={b}"));
+        out.push(format!("load.{t};;v,w assert_ne;v,w; | v={a} w={b}"));
+        out.push(format!("load.{t};;v,w assert_eq;v,w; | v={a} w={b}"));
+        out.push(format!("load.{t};;v,w is_eq;w,v;b is_eq;v,v;c assert_ne;b,c; publish;c,b; | v={a} w={b}"));
+    };
+    for (n, a, b) in &pairs_bytes {
+        let (ha, hb) = (hex_bytes(&le_bytes(a, *n)), hex_bytes(&le_bytes(b, *n)));
+        ops(&format!("bytes.{n}"), &format!("y:{ha}"), &format!("y:{hb}"), &mut out);
+    }
+    // BigUint: congruent modulo p, modulo the limb base, modulo 2^(96*limbs)
+    for &wd in &[8u32, 96, 97, 192, 256, 300, 400] {
+        let cap = BigUint::one() << wd;
+        let mut cands: Vec<(BigUint, BigUint)> = vec![(BigUint::zero(), BigUint::zero()), (&cap - &one, &cap - &one), (BigUint::zero(), &cap - &one), (BigUint::zero(), BigUint::one() << (wd - 1))];
+        for sh in [96u32, 192, 255, 288] {
+            if sh < wd {
+                cands.push((BigUint::zero(), BigUint::one() << sh));
+                cands.push((BigUint::one(), (BigUint::one() << sh) + &one));
+            }
+        }
+        if wd >= 256 {
+            cands.push((BigUint::zero(), p.clone()));
+            cands.push((&p - &one, &p * 2u32 - &one));
+            cands.push((BigUint::from(5u32), &p * 3u32 + 5u32).clone());
+        }
+        if wd >= 400 {
+            cands.push((BigUint::zero(), &p << 96));
+        }
+        for (a, b) in cands {
+            if a < cap && b < cap {
+                ops(&format!("big.{wd}"), &format!("u:{}", a.to_str_radix(16)), &format!("u:{}", b.to_str_radix(16)), &mut out);
+            }
+        }
+    }
+    // Native (values are canonical off-circuit: only the extremes), Bool, points
+    for (a, b) in [("0", "0"), ("0", "1"), ("0", "73eda753299d7d483339d80809a1d80553bda402fffe5bfeffffffff00000000"), ("73eda753299d7d483339d80809a1d80553bda402fffe5bfeffffffff00000000", "73eda753299d7d483339d80809a1d80553bda402fffe5bfeffffffff00000000"), ("1", "100000000000000000000000000000000")] {
+        ops("native", &format!("n:{a}"), &format!("n:{b}"), &mut out);
+    }
+    for (a, b) in [("0", "0"), ("0", "1"), ("1", "0"), ("1", "1")] {
+        ops("bool", &format!("b:{a}"), &format!("b:{b}"), &mut out);
+    }
+    let g = "p:3ea5c4673a121ca35ed37ee3b172f5ee04315c657fbe375f512dfea318d56fe5/57137b83ea6edb4f78f7d30d3f616cb3b9aa6e8e40808413c10cea38d50c55cb";
+    for (a, b) in [("p:0/1", "p:0/1"), ("p:0/1", g), (g, g)] {
+        ops("point", a, b, &mut out);
+    }
+    // -G has the same v coordinate as G
+    out.push(format!("load.point;;v neg;v;w is_eq;v,w;b publish;b; | v={g}"));
+    out.push(format!("load.point;;v neg;v;w assert_ne;v,w; | v={g}"));
+    out.push(format!("load.point;;v neg;v;w assert_eq;v,w; | v={g}"));
+    // conversions on byte strings that are not canonical encodings (p, p +- 1, 2^255 +- .., all
+    // ones): FromBytes to Native reduces, to a point must reject, to a BigUint keeps the integer;
+    // converting back must give the canonical bytes (assertion fails when they differ)
+    let two = |k: u32| BigUint::one() << k;
+    for x in [p.clone(), &p + &one, &p - &one, two(255) - &one, two(256) - &one, two(255), &p + &one + two(255)] {
+        let h = hex_bytes(&le_bytes(&x, 32));
+        out.push(format!("load.bytes.32;;b from_bytes.native;b;x publish;x; | b=y:{h}"));
+        out.push(format!("load.bytes.32;;b from_bytes.point;b;x publish;x; | b=y:{h}"));
+        out.push(format!("load.bytes.32;;b from_bytes.big.256;b;x publish;x; | b=y:{h}"));
+        out.push(format!("load.bytes.32;;b from_bytes.native;b;x into_bytes.32;x;c assert_eq;b,c; | b=y:{h}"));
+        out.push(format!("load.bytes.32;;b from_bytes.native;b;x into_bytes.32;x;c is_eq;b,c;e publish;e; | b=y:{h}"));
+    }
+    for x in [p.clone(), two(256), two(264) - &one] {
+        let h = hex_bytes(&le_bytes(&x, 33));
+        out.push(format!("load.bytes.33;;b from_bytes.native;b;x publish;x; | b=y:{h}"));
+        out.push(format!("load.bytes.33;;b from_bytes.big.264;b;x into_bytes.33;x;c assert_eq;b,c; publish;x; | b=y:{h}"));
+    }
+    out.iter().map(|s| parse_case_body(s).unwrap_or_else(|| panic!("bad wrap case {s}"))).collect()
+}
+
 pub fn generated(ctx: &mut Ctx) {
+    {
+        let mut rng = ctx.rng("c18-wrap-pairs");
+        let rounds = if ctx.quick() { 2 } else if ctx.thorough() { 12 } else { 6 };
+        let cases = wrap_cases(&mut rng, rounds);
+        crate::run_batch(ctx, "compare-wrap", cases, true);
+    }
     let (n_valid, n_mut, n_nomock) = if ctx.quick() {
         (1200, 500, 3000)
     } else if ctx.thorough() {
